@@ -64,14 +64,24 @@ CHECKS.update({
               "REQs) over several histories of a universe crafted for byte-order hazards (ids starting ff/00, equal timestamps, tag "
               "values that are prefixes of one another, quote/backslash tag names, a delegated, a replaced and a deleted event) on both "
               "backends; the LMDB planner's index choice is covered for ids, created_at, kinds, authors, author+kind, tags and chained "
-              "multi-index plans."),
-        technique="TLA+ Query.tla (Complete, Multiplicity) evaluated by TLC on recorded answers to an enumerated filter grammar on both backends"),
+              "multi-index plans. Second engine (LMDB): KvScan.tla transcribes planner, Index.scanner (cursor walk over the byte-ordered "
+              "keyspace), IdIndex / MultiIndex scanners, matcher and limit; TLC model-checks the transcription for soundness, completeness "
+              "under the limit and multiplicity over every store of a six-event universe x a product grammar of filters (MC_KvScan), and, "
+              "for thousands of (seeded store, filter) runs of the real LMDBStorage, executes the transcription on the dumped store, "
+              "compares the scanner's yields (seen through a wrapper around kv.matcher) and the answer with the recorded ones and "
+              "evaluates the query clauses on the recorded answer (KvScan_Trace.tla); runs on which code and transcription differ are "
+              "reported as deviations, the property is judged on the recorded answer."),
+        technique="TLA+ Query.tla (Complete, Multiplicity) evaluated by TLC on recorded answers to an enumerated filter grammar on both backends; TLA+ KvScan.tla (transcribed LMDB planner/scanner) model-checked by TLC and bound to the code by trace validation of scanner yields and answers"),
     "C12": dict(
         cat="model_checking", ref="DESIGN.md §5 C12", note=QUERY_NOTE,
         text=("With max_limit=3 configured before import, every filter of the grammar x limits {absent,0,1,2,3,4,10^9} and multi-filter "
               "REQs are answered through the subscription path; TLC evaluates LimitOK of Query.tla (existential attribution of delivered "
-              "items to filters, at most min(limit,max_limit) per filter, no left-out matching event newer than a sent one) on every answer."),
-        technique="TLA+ Query.tla (LimitOK) evaluated by TLC on recorded answers with max_limit=3 on both backends"),
+              "items to filters, at most min(limit,max_limit) per filter, no left-out matching event newer than a sent one) on every answer. "
+              "Second engine (LMDB): the transcription KvScan.tla is model-checked for KS_AtMostLimit and KS_NewestSingle (MC_KvScan; "
+              "MC_KvScan_asfound reproduces the open finding for multi-value scans as a TLC counterexample) and executed by TLC on every "
+              "recorded (store, filter) of the real LMDBStorage (KvScan_Trace.tla); there the open finding is recognised precisely: the "
+              "recorded answer equals the one the transcribed algorithm produces and the filter has several match values."),
+        technique="TLA+ Query.tla (LimitOK) evaluated by TLC on recorded answers with max_limit=3 on both backends; TLA+ KvScan.tla (transcribed LMDB planner/scanner/limit) model-checked by TLC and trace-validated against the real scanner"),
 })
 
 RELAY_NOTE = ("Trusted: TLC; CPython asyncio (single-threaded FIFO loop: the recorder's log order is the real step order); SQLite and "
